@@ -24,6 +24,20 @@ func cat(l ...[]*types.Transaction) []*types.Transaction {
 
 func one(tx *types.Transaction) []*types.Transaction { return []*types.Transaction{tx} }
 
+// Synthetic lists blocks of the synthetic order-sensitive executor vlx (outside the universe of the
+// built-in executors; they make the reverse-order removal of a block's transactions observable).
+func Synthetic() []Spec {
+	return []Spec{
+		{"vlx(A)", func(e *Env) []*types.Transaction { return one(e.Vlx(A, "1")) }},
+		{"vlx(A),vlx(E)", func(e *Env) []*types.Transaction {
+			return []*types.Transaction{e.Vlx(A, "1"), e.Vlx(E, "2")}
+		}},
+		{"vlx(A),A->D,vlx(A)", func(e *Env) []*types.Transaction {
+			return []*types.Transaction{e.Vlx(A, "1"), e.Transfer(A, D, 21), e.Vlx(A, "2")}
+		}},
+	}
+}
+
 // Alphabet lists the generated blocks (1-3 transactions): coins transfers to a receiver with
 // history, to a never-seen address, to the sender itself, several receivers, the same pair twice, an
 // address that is sender and receiver, a transfer that fails for lack of balance (fee still paid), a
